@@ -143,7 +143,7 @@ def text(rng, segs, links, stale, shuffle=True):
     return "\n".join(L) + "\n"
 
 
-def run_order(gtext, order, with_seq, by_chrom, tmp, gz=False):
+def run_order(gtext, order, with_seq, by_chrom, tmp, gz=False, default_order=False):
     """in-process run of the real run_order_gfa; returns dict(outcome, files{chrom: text}, csv{chrom: text}, complete)"""
     from gaftools.cli import order_gfa
     src = os.path.join(tmp, "in.gfa" + (".gz" if gz else ""))
@@ -151,7 +151,7 @@ def run_order(gtext, order, with_seq, by_chrom, tmp, gz=False):
     out = os.path.join(tmp, "out")
     shutil.rmtree(out, ignore_errors=True)
     try:
-        order_gfa.run_order_gfa(src, out, by_chrom=by_chrom, chromosome_order=",".join(order), with_sequence=with_seq)
+        order_gfa.run_order_gfa(src, out, by_chrom=by_chrom, chromosome_order=("" if default_order else ",".join(order)), with_sequence=with_seq)
     except SystemExit as e:
         return {"outcome": "exit", "code": e.code}
     except BaseException as e:  # noqa
@@ -169,6 +169,22 @@ def check_layout(txt):
     """all S lines precede all L lines"""
     kinds = [l[0] for l in txt.splitlines() if l]
     return "S" not in kinds[kinds.index("L"):] if "L" in kinds else True
+
+
+DEFAULT_CHROMS = ["chr%d" % i for i in range(1, 23)] + ["chrX", "chrY", "chrM"]
+
+
+def make_default_case(rng):
+    """the 25 default chromosomes, small chains, no --chromosome_order: the documented default order must be used"""
+    ids = idgen(rng.choice(["s", "num", "mixed"]))
+    allsegs, alllinks = [], []
+    names = DEFAULT_CHROMS[:]
+    rng.shuffle(names)          # order of appearance in the file is unrelated to the default order
+    for c in names:
+        s, l, _ = gen_chrom(rng, c, ids, None)
+        allsegs += s
+        alllinks += l
+    return allsegs, alllinks, DEFAULT_CHROMS[:], {c: None for c in DEFAULT_CHROMS}
 
 
 def make_case(rng):
@@ -215,7 +231,7 @@ def main(prop):
                       "each chromosome name has a strict plurality in its component (ties are broken by set order)",
                       "biccs exactness is C15's subject (definition-level checker on the implementation's output, not a general theorem)"]
     ck.canon = ["L lines compared as a multiset", "BO/NO read from the written S lines", "log output ignored"]
-    ck.lean_build({"C06": ["Gaftools.Props.C06"], "C07": ["Gaftools.Props.C07", "Gaftools.Props.TieA"], "C18": ["Gaftools.Props.C18"]}[prop])
+    ck.lean_build({"C06": ["Gaftools.Props.C06", "Gaftools.Props.C06b"], "C07": ["Gaftools.Props.C07", "Gaftools.Props.TieA"], "C18": ["Gaftools.Props.C18"]}[prop])
     ck.audit("%s.lean" % prop)
     rng = ck.rng
     quick = ck.tier == "quick"
@@ -223,11 +239,14 @@ def main(prop):
     k2_seen = 0
     try:
         for it in range(60 if quick else 2500):
-            segs, links, order, broken = make_case(rng)
+            default_order = prop == "C06" and it % 15 == 7
+            segs, links, order, broken = make_default_case(rng) if default_order else make_case(rng)
             with_seq = rng.random() < 0.5
-            gtext = text(rng, segs, links, stale=rng.random() < 0.5)
+            gtext = text(rng, segs, links, stale=rng.random() < 0.5, shuffle=not default_order)
             tok = tokenize_gfa(gtext)
-            res = run_order(gtext, order, with_seq, True, tmp, gz=rng.random() < 0.15)
+            res = run_order(gtext, order, with_seq, True, tmp, gz=rng.random() < 0.15, default_order=default_order)
+            if default_order:
+                ck.count("default-chromosome-order")
             replay = {"gfa": gtext, "order": order, "with_sequence": with_seq, "made_unorderable": broken}
             nontriv = (len(order) >= 2 and any(broken.values()) and not all(broken.values())) if prop == "C18" else not all(broken.values())
             ck.case({"gfa": gtext, "order": order}, nontriv, sample={"gfa": gtext.splitlines()[:8] + ["..."], "order": order, "broken": broken})
@@ -283,7 +302,7 @@ def main(prop):
             if prop == "C06":
                 # the assignment depends only on the graph: other line order, other stale tags
                 g2 = text(rng, segs, links, stale=True)
-                res2 = run_order(g2, order, with_seq, True, tmp)
+                res2 = run_order(g2, order, with_seq, True, tmp, default_order=default_order)
                 if res2["outcome"] != "ok":
                     ck.violation("order_gfa fails on a permutation of the lines of a file it handles", dict(replay, gfa2=g2))
                     continue
